@@ -424,40 +424,40 @@ type valCase struct {
 	cond *Cond
 }
 
-func collectPhis(v ssa.Value, n *Normer, out *[]*ssa.Phi, depth int) {
-	if depth > 7 {
-		return
+// firstOpenPhi: the first phi in the expression tree of v that is neither bound, loop-carried,
+// nor already decided in n.PhiChoice (decided phis are followed through their chosen edge only).
+func firstOpenPhi(v ssa.Value, n *Normer, depth int) *ssa.Phi {
+	if depth > 9 {
+		return nil
 	}
 	if _, bound := n.Bind[v]; bound {
-		return
+		return nil
 	}
 	switch x := v.(type) {
 	case *ssa.Phi:
+		if i, ok := n.PhiChoice[x]; ok {
+			return firstOpenPhi(x.Edges[i], n, depth+1)
+		}
 		blk := x.Block()
 		for _, p := range blk.Preds {
 			if blk.Dominates(p) {
-				return // loop-carried
+				return nil // loop-carried
 			}
 		}
-		for _, q := range *out {
-			if q == x {
-				return
-			}
-		}
-		*out = append(*out, x)
-		for _, e := range x.Edges {
-			collectPhis(e, n, out, depth+1)
-		}
+		return x
 	case *ssa.BinOp:
-		collectPhis(x.X, n, out, depth+1)
-		collectPhis(x.Y, n, out, depth+1)
+		if p := firstOpenPhi(x.X, n, depth+1); p != nil {
+			return p
+		}
+		return firstOpenPhi(x.Y, n, depth+1)
 	case *ssa.Convert:
-		collectPhis(x.X, n, out, depth+1)
+		return firstOpenPhi(x.X, n, depth+1)
 	case *ssa.UnOp:
-		collectPhis(x.X, n, out, depth+1)
+		return firstOpenPhi(x.X, n, depth+1)
 	case *ssa.ChangeType:
-		collectPhis(x.X, n, out, depth+1)
+		return firstOpenPhi(x.X, n, depth+1)
 	}
+	return nil
 }
 
 func (n *Normer) valueCases(fn *ssa.Function, from *ssa.BasicBlock, v ssa.Value, depth int) []valCase {
@@ -487,22 +487,17 @@ func (n *Normer) valueCases(fn *ssa.Function, from *ssa.BasicBlock, v ssa.Value,
 			}
 		}
 	}
-	var phis []*ssa.Phi
-	collectPhis(v, n, &phis, 0)
-	if len(phis) == 0 || len(phis) > 4 {
-		return []valCase{{n.Norm(v), cTrue}}
-	}
 	var out []valCase
-	var rec func(k int, cond *Cond)
-	rec = func(k int, cond *Cond) {
-		if k == len(phis) {
+	var rec func(cond *Cond, decided int)
+	rec = func(cond *Cond, decided int) {
+		phi := firstOpenPhi(v, n, 0)
+		if phi == nil || decided >= 6 {
 			if eq, _ := CondEquivalent(cond, cFalse); eq {
 				return
 			}
 			out = append(out, valCase{n.Norm(v), cond})
 			return
 		}
-		phi := phis[k]
 		blk := phi.Block()
 		f := blk.Idom()
 		if from != nil && from.Dominates(blk) && from != blk {
@@ -511,11 +506,11 @@ func (n *Normer) valueCases(fn *ssa.Function, from *ssa.BasicBlock, v ssa.Value,
 		for ei := range phi.Edges {
 			n.PhiChoice[phi] = ei
 			pred := blk.Preds[ei]
-			rec(k+1, cAnd(cond, cAnd(n.ReachCond(fn, f, pred), n.EdgeCond(pred, blk))))
+			rec(cAnd(cond, cAnd(n.ReachCond(fn, f, pred), n.EdgeCond(pred, blk))), decided+1)
 		}
 		delete(n.PhiChoice, phi)
 	}
-	rec(0, cTrue)
+	rec(cTrue, 0)
 	return mergeCases(out)
 }
 
